@@ -357,7 +357,9 @@ func (w *World) Rules() []Rule {
 }
 
 func (w *World) Run(syms *SymbolTable) error {
-	done := make(chan error)
+	// buffered: the evaluation goroutine must be able to deliver its result and exit
+	// even when the caller has already returned because of the timeout
+	done := make(chan error, 1)
 	ctx, cancel := context.WithTimeout(context.Background(), w.runLimits.maxDuration)
 	defer cancel()
 
